@@ -4,7 +4,7 @@ usage: recheck_seeded.py [ids...]  — prints one line per change; never touches
 import json, os, shutil, subprocess, sys
 from concurrent.futures import ThreadPoolExecutor
 def sh(c): return subprocess.run(c, shell=True, stdout=subprocess.PIPE, stderr=subprocess.STDOUT, text=True)
-ids = sys.argv[1:] or sorted(os.listdir('/verif/seeded'))
+ids = sys.argv[1:] or sorted(d for d in os.listdir('/verif/seeded') if os.path.isdir(f'/verif/seeded/{d}'))
 def one(d):
     src = f'/verif/seeded/{d}'; wt = f'/tmp/recheck/{d}'
     sh(f'git -C /repo worktree remove --force {wt}')
